@@ -8,6 +8,7 @@ use serde_json::Value;
 use crate::sim::FaultStats;
 
 pub mod common;
+pub mod c01;
 pub mod c02;
 pub mod c03;
 pub mod c04;
@@ -17,7 +18,9 @@ pub mod c07;
 pub mod c08;
 pub mod c09;
 pub mod c11;
+pub mod c13;
 pub mod c15;
+pub mod netkit;
 pub mod c16;
 pub mod c17;
 pub mod server_model;
@@ -137,6 +140,9 @@ impl Report {
 }
 
 pub struct PropInfo {
+    /// batch-level verdicts: (statistic name, minimal success rate, minimal sample count);
+    /// runs report probes `stat_<name>_ok` / `stat_<name>_fail`
+    pub floors: Vec<(String, f64, u64)>,
     pub rule: String,
     pub assumptions: Vec<String>,
 }
@@ -150,7 +156,7 @@ pub struct Property {
 }
 
 pub fn all() -> Vec<Property> {
-    vec![c02::property(), c03::property(), c04::property(), c05::property(), c06::property(), c07::property(), c08::property(), c09::property(), c11::property(), c15::property(), c16::property(), c17::property()]
+    vec![c01::property(), c02::property(), c03::property(), c04::property(), c05::property(), c06::property(), c07::property(), c08::property(), c09::property(), c11::property(), c13::property(), c15::property(), c16::property(), c17::property()]
 }
 
 pub fn get(id: &str) -> Option<Property> {
